@@ -56,13 +56,14 @@ Definition kC : qkey := KBin [0x4b; 0x6e; 0x8e; 0x94; 0x2c].
 Example ex_hashes : qhash kA = 1742542030 /\ qhash kB = 1742542030 /\ qhash kA' = 1742542030 /\
                     qhash kC <> 1742542030 /\ agree 4 (qhash kC) (qhash kA) /\ frag (qhash kC) 4 <> frag (qhash kA) 4.
 Proof.
-  repeat split; try (vm_compute; congruence).
+  split; [vm_compute; reflexivity|]. split; [vm_compute; reflexivity|]. split; [vm_compute; reflexivity|].
+  split; [vm_compute; congruence|]. split; [|vm_compute; congruence].
   intros j Hj. do 4 (destruct j as [|j]; [vm_compute; reflexivity|]). lia.
 Qed.
 
 Definition ex_tree : qdict :=
-  Node 16384 [Node 1048576 [Node 32768 [Node 67108864 [Node 268435460
-    [Collision 1742542030 [(kA, 1); (kB, 2); (kA', 3)]; Leaf (qhash kC) kC 4]]]]].
+  Node 16384 [Node 64 [Node 32 [Node 67108864 [Node 536871936
+    [Leaf 413996238 kC 4; Collision 1742542030 [(kA, 1); (kB, 2); (kA', 3)]]]]]].
 
 (* the real operations build this 5-level tree with a 3-entry collision bucket at the bottom *)
 Example ex_tree_built :
@@ -89,4 +90,4 @@ Example ex_collapse :
   match q_remove d2 kA' with Some d3 => Some (d1, d3) | None => None end | None => None end | None => None end
   = Some (Collision 1742542030 [(kA, 1); (kB, 2); (kA', 3)], Leaf 1742542030 kB 2)
   /\ q_get ex_tree kC = Some (Some 4) /\ q_get ex_tree kA' = Some (Some 3) /\ q_count ex_tree = Some 4.
-Proof. vm_compute. repeat split; reflexivity. Qed.
+Proof. vm_compute. split; [reflexivity|]. split; [reflexivity|]. split; reflexivity. Qed.
